@@ -72,6 +72,8 @@ pub struct Alphabet {
     pub tokenless: bool,
     /// the group admin toggles banks between the default and the SOL asset tag
     pub retag: bool,
+    /// well-typed but adversarial account lists: a bank's vault replaced by user 1's own token account
+    pub vault_swaps: bool,
 }
 
 impl Alphabet {
@@ -101,6 +103,7 @@ impl Alphabet {
             extra_amounts: vec![],
             tokenless: false,
             retag: false,
+            vault_swaps: false,
         }
     }
 }
@@ -173,6 +176,10 @@ impl Model for Hist {
                 if al.deposit && (!al.prune || !has_liab) {
                     v.push(Action::Deposit { u, b, amt: 1, up_to_limit: None });
                     v.push(Action::Deposit { u, b, amt: 100 * one(b) + 7, up_to_limit: None });
+                    if self.w.mints.get(&self.w.banks[b].mint).and_then(|m| m.fee).is_some() {
+                        // an amount whose transfer fee is neither rounded to one unit nor capped
+                        v.push(Action::Deposit { u, b, amt: 100_003, up_to_limit: None });
+                    }
                     if al.rich_amounts {
                         v.push(Action::Deposit { u, b, amt: 3, up_to_limit: None });
                         v.push(Action::Deposit { u, b, amt: one(b), up_to_limit: Some(true) });
@@ -251,6 +258,7 @@ impl Model for Hist {
             }
             if al.transfer {
                 v.push(Action::Transfer { u });
+                v.push(Action::TransferPda { u });
             }
             if al.close_account {
                 v.push(Action::CloseAccount { u });
@@ -331,6 +339,22 @@ impl Model for Hist {
                 v.push(Action::CloseBank { b });
             }
         }
+        if al.vault_swaps {
+            // every vault of a bank the instruction names, for the instructions that name vaults
+            let base: Vec<Action> = v.iter().filter(|a| matches!(a, Action::Bankruptcy { .. } | Action::CollectFees { .. } | Action::Liquidate { amt: 1, .. }) || matches!(a, Action::Deposit { amt: 1, .. } | Action::Repay { amt: 1, .. } | Action::Withdraw { amt: 1, all: false, .. } | Action::Borrow { amt: 1, .. })).cloned().collect();
+            for a in base {
+                let banks: Vec<usize> = match &a {
+                    Action::Bankruptcy { b, .. } | Action::CollectFees { b } | Action::Deposit { b, .. } | Action::Repay { b, .. } | Action::Withdraw { b, .. } | Action::Borrow { b, .. } => vec![*b],
+                    Action::Liquidate { asset, liab, .. } => vec![*asset, *liab],
+                    _ => vec![],
+                };
+                for bank in banks {
+                    for kind in 0..3u8 {
+                        v.push(Action::WithVaultSwap { base: Box::new(a.clone()), bank, kind });
+                    }
+                }
+            }
+        }
         if st.clock_devs < al.max_clock_devs {
             for &dt in &al.clock_dts {
                 v.push(Action::Advance { dt });
@@ -405,6 +429,17 @@ pub fn action_kind(a: &Action) -> &'static str {
         Action::ForceTokenlessComplete { .. } => "force_tokenless_complete",
         Action::Retag { .. } => "retag_bank",
         Action::Transfer { .. } => "transfer_account",
+        Action::TransferPda { .. } => "transfer_account_pda",
+        Action::WithVaultSwap { base, .. } => match action_kind(base) {
+            "bankruptcy" => "bankruptcy+vault_swap",
+            "liquidate" => "liquidate+vault_swap",
+            "collect_fees" => "collect_fees+vault_swap",
+            "deposit" => "deposit+vault_swap",
+            "repay" => "repay+vault_swap",
+            "withdraw" => "withdraw+vault_swap",
+            "borrow" => "borrow+vault_swap",
+            _ => "other+vault_swap",
+        },
         Action::CloseAccount { .. } => "close_account",
         Action::CloseOriginal { .. } => "close_original_account",
         Action::CloseBank { .. } => "close_bank",
@@ -998,7 +1033,7 @@ impl StepOracle for StructureOracle {
     fn check(&self, c: &StepCtx, out: &mut Vec<Violation>, tags: &mut Vec<&'static str>) {
         use marginfi_type_crate::types::{ACCOUNT_DISABLED, ACCOUNT_FROZEN, ACCOUNT_IN_FLASHLOAN, ACCOUNT_IN_RECEIVERSHIP};
         let acting = match c.a {
-            Action::Deposit { u, .. } | Action::Withdraw { u, .. } | Action::Borrow { u, .. } | Action::Repay { u, .. } | Action::CloseAccount { u } | Action::Transfer { u } => Some(*u),
+            Action::Deposit { u, .. } | Action::Withdraw { u, .. } | Action::Borrow { u, .. } | Action::Repay { u, .. } | Action::CloseAccount { u } | Action::Transfer { u } | Action::TransferPda { u } => Some(*u),
             _ => None,
         };
         if !c.res.committed {
@@ -1023,10 +1058,10 @@ impl StepOracle for StructureOracle {
                 }
             }
         }
-        if let Action::Transfer { u } = c.a {
+        if let Action::Transfer { u } | Action::TransferPda { u } = c.a {
             tags.push("transferred");
             let old_k = act::cur_account(c.w, &c.pre.s, *u);
-            let new_k = act::next_account_key(&old_k);
+            let new_k = if matches!(c.a, Action::TransferPda { .. }) { act::next_account_key_pda(c.w, &old_k, &c.w.users[*u].authority) } else { act::next_account_key(&old_k) };
             let (pre_old, post_old, post_new) = (world::try_account(&c.pre.s, &old_k), world::try_account(c.post, &old_k), world::try_account(c.post, &new_k));
             if let (Some(po), Some(qo), Some(qn)) = (pre_old, post_old, post_new) {
                 if qo.lending_account.balances.iter().any(|b| b.active != 0) || qo.account_flags & ACCOUNT_DISABLED == 0 || qo.migrated_to != new_k {
